@@ -24,6 +24,8 @@ mod memory_accessor;
 mod test_runner;
 #[path = "/repo/mos/src/utils.rs"]
 mod utils;
+#[path = "/repo/mos/src/verif_hooks.rs"]
+mod verif_hooks;
 
 use crate::commands::*;
 
@@ -65,6 +67,7 @@ pub enum Subcommand {
 
 mod lspdrv;
 mod props;
+mod sched;
 
 use mvlib::{Ctx, Tier};
 
